@@ -42,6 +42,7 @@ type c02Case struct {
 	Params        bool     `json:"params,omitempty"`   // verification with a (non-matching) parameter dictionary
 	DupPubKey     bool     `json:"dup_pubkey,omitempty"` // the step lists one authorised key id twice (still one functionary)
 	LinkDirName   string   `json:"link_dir_name,omitempty"` // name of the link directory ("" = links)
+	Symlinked     bool     `json:"symlinked,omitempty"`     // the entries of the link directory are symbolic links to files kept elsewhere
 }
 
 // c02Kind describes one kind of link file for step s0.
@@ -155,6 +156,16 @@ func init() {
 				f := hx.WMetaFile{Wrapper: "legacy", Meta: hx.MMeta{Link: c02Link("badcert-" + cn)}, Sigs: []hx.WSig{{Key: "pki:" + cn, WithCert: true}}}
 				f.Name = "pki:" + cn
 				return f
+			},
+			truth: func(c c02Case) []string { return nil }})
+	}
+	// an outsider signs with his own key and ships, behind his bare public key, the (public) certificate of a
+	// real functionary in the cert member: the signer is whoever made the signature, and he has no certificate
+	for _, cn := range []string{"leaf1", "leaf-direct"} {
+		cn := cn
+		c02Register(c02Kind{name: "outsider-key-before-cert:" + cn,
+			file: func(b *c02Builder) hx.WMetaFile {
+				return c02File("outsider-before-"+cn, c02U, "legacy", hx.WSig{Key: c02U, CertOf: "pubkey:" + c02U, Chain: []string{cn}})
 			},
 			truth: func(c c02Case) []string { return nil }})
 	}
@@ -352,6 +363,13 @@ func c02World(c c02Case) (hx.World, map[string][]string, error) {
 	w.Layout = hx.WMetaFile{Name: "root.layout", Wrapper: c.LayoutWrapper, Meta: hx.MMeta{Layout: &lay}, Sigs: []hx.WSig{{Key: "ed25519-1"}}}
 	w.VerifierKeys = []hx.WKey{{Key: "ed25519-1"}}
 	w.LinkDirName = c.LinkDirName
+	if c.Symlinked {
+		for i := range w.Links {
+			if w.Links[i].Special == "" {
+				w.Links[i].Special = "via-symlink"
+			}
+		}
+	}
 	if c.Params {
 		w.Params = map[string]string{"UNUSED_PARAMETER": "value", "OTHER": "{UNUSED_PARAMETER}"}
 	}
@@ -455,6 +473,7 @@ func c02Eval(c c02Case, r *hx.Rec) error {
 	r.Label("foreign_intermediate=%v", c.ForeignInter)
 	r.Label("stepname=%q", c.StepName)
 	r.Label("linkdir=%q", c.LinkDirName)
+	r.Label("symlinked-links=%v", c.Symlinked)
 	if c.NoRoots {
 		r.Label("no-layout-roots")
 	}
@@ -567,6 +586,7 @@ func c02Gen(t *rapid.T) c02Case {
 	}
 	c.Kinds = rapid.SliceOfNDistinct(rapid.SampledFrom(c02KindNames), 0, 5, rapid.ID[string]).Draw(t, "kinds")
 	// the directory holding the links is the user's: its name may contain anything a file name may
+	c.Symlinked = rapid.IntRange(0, 3).Draw(t, "symlinked") == 0
 	c.LinkDirName = rapid.SampledFrom([]string{"", "", "", "links[1]", "out*", "rel?ase", "a\\b", "link dir", "[", "links.d"}).Draw(t, "linkdirname")
 	return c
 }
